@@ -328,7 +328,12 @@ class Runner:
             print("replay names a build/proof step: %s" % (rp.get("step") or rp.get("no_longer_checks")))
             print("current build: %s" % ("ok" if b.ok else b.step))
             return 0 if b.ok else 1
-        tname = rp["tie"].replace("-search", "")
+        tname = rp["tie"]
+        if tname not in ties and tname.endswith("-search"):
+            tname = tname[:-len("-search")]
+        if tname not in ties:
+            print("replay names a tie this property no longer has:", tname)
+            return 1
         tie = ties[tname]
         os.makedirs(self.workdir, exist_ok=True)
         d, err = self.run_shard(dict(tie, name=tie["name"] + "-replay"), 0, 1, 0, cases_override=[rp["case"]])
